@@ -105,7 +105,7 @@ CLAIMS = {
     'C05': {
         'text': 'C05_token: every well-formed token (all shapes: RR, RR+, RR-SS, XYs/o in either order, XYs/o+, XYs/o-XZs/o, two different cards in either order), with or without a weight of the grammar, '
                 'parses and expands to exactly the list of combos Spec.denote gives (standard notation, written independently of the crate), each once, each with the token\'s weight (1 when omitted); '
-                'C05_list: for any list of such tokens joined by commas with spaces anywhere, lookup of every combo is the weight of the LAST token denoting it; C05_empty: the empty / all-space string is the empty range.',
+                'C05_list: for any list of such tokens joined by commas with spaces anywhere, lookup of every combo is the weight of the LAST token denoting it; C05_empty: the empty / all-space string is the empty range. C05_notation_unambiguous: well-formed tokens with equal text are equal (the standard meaning of a text is well defined); C05_oracle_reader_complete: the reader by which the correspondence oracle attaches Spec.denote to a request recognises every well-formed token.',
         'note': 'Lean kernel + standard axioms; assumption: "" is not a number for f32::from_str (named hypothesis); hand-written model of the parser tied by the correspondence (all 3,809 well-formed shapes x weight literals, '
                 'expansion order compared with the model, expansion set with Spec.denote); regex crate modelled by a derivative semantics of the pattern subset used; the recognisers of the parser model are proved equal to that semantics of the literals read from the source on every run (C09_regex_semantics).',
         'design_ref': 'DESIGN.md §6 C05',
